@@ -1,5 +1,5 @@
 """C03 -- Data-flow fidelity of step inputs."""
-from props.common import other_tasks, contract_tasks, lemma_tasks, TRUSTED_CORE
+from props.common import other_tasks, contract_tasks, lemma_tasks, TRUSTED_CORE, SCHED_ASSUMPTIONS
 
 PROPERTY = "C03"
 
@@ -11,11 +11,15 @@ def tasks(tier):
 
 
 TRUSTED_BASE = TRUSTED_CORE
-ASSUMPTIONS = []
-NOT_COVERED = []
-LEVEL_TEXT = "wip"
+ASSUMPTIONS = SCHED_ASSUMPTIONS + [
+    "cache entries (SimRunner.outputs) are inserted in increasing output-time order (dict order = time order): get_output_for and prune rely on it; "
+    "it follows from C02/K (steps in increasing order) and the output-time check of get_outputs, not re-proved here",
+    "get_input_data (three-level dict merging, merge_all / merge_existing) is checked by a bounded stand-in with a stated bound, never counted as proved",
+]
+NOT_COVERED = ["the whole-run statement 'the inputs passed to a step at t are exactly ...' is decomposed, not proved end to end: cache and buffer functions against their specifications, get_outputs storing / pushing under the right times, prune keeping what a pull can still return, connect_one building the tables; the composition with C01 (inputs complete at BEGIN) is argued in DESIGN", 'get_input_data itself: bounded stand-in only']
+LEVEL_TEXT = "Contracts on the real get_output_for (newest entry not newer than t, {} if none), TimedInputBuffer.get_input (exactly the buffered values due at or before t, each removed once, later ones kept), prune_dataflow_cache (every future pull of every consumer is answered as before -- the retention clause taken from the property), the data clauses of get_outputs (cached under the output time, pushed with the connection's delay) and connect_one (pulled iff persistent and cached, else pushed; initial data placement; minimum delay); get_input_data by a bounded stand-in."
 DESIGN_REF = "DESIGN.md section 8 (C03)"
-LEVEL_NOTE = "wip"
-TECHNIQUE = "contract-based deductive verification (AST->z3 VCs on get_output_for, TimedInputBuffer.get_input, prune_dataflow_cache, get_outputs, connect_one); get_input_data by a bounded stand-in"
-CLAIMED = False
-NA_REASON = "check under construction in this round"
+LEVEL_NOTE = 'Proved per function for arbitrary cache / buffer contents and any number of simulators; get_input_data only bounded. Trusted: pyvc encoder, cache order assumption, z3/cvc5. Fixed through this check: F4 (c11a443), F5 (2fee19a).'
+TECHNIQUE = 'contract-based deductive verification (AST->z3 VCs on get_output_for, TimedInputBuffer.get_input, prune_dataflow_cache, get_outputs, connect_one); get_input_data by a bounded stand-in'
+CLAIMED = True
+NA_REASON = ""
